@@ -20,7 +20,8 @@ for name,b in bins:
         if c.expect is not None:
             f = c.expect(a) if callable(c.expect) else (None if c.expect == a else 'expected ' + c.expect)
         if f is None and hasattr(mod,'check_output'): f = mod.check_output(c,a)
-        if a != b2 or f:
+        io = isinstance(c.meta, dict) and c.meta.get('impl_only')
+        if (a != b2 and not io) or f:
             bad += 1
             if bad < 6: print(name, c.kind, c.line[:300], '\n impl ', a[:300], '\n model', b2[:300], '\n oracle', f)
     print(name, len(cases), 'cases; bad', bad, 'gen %.1fs impl %.1fs model %.1fs'%(tg,ti,tm), kinds)
